@@ -117,6 +117,16 @@ func GenWorld(t *rapid.T, pf Profile) *World {
 			if chance(t, 6, "nodeHasDRA") {
 				w.Nodes[i].DRA = map[string]int{DRAClass: pickInt(t, "draDevices", 1, 2, 2, 4)}
 			}
+			// GPUs published through DRA instead of the device plugin (nodes without nvidia.com/gpu only)
+			if len(w.Nodes) > 1 && w.Nodes[i].MigStrategy == "" && w.Nodes[i].GPUs > 0 && chance(t, 2, "nodeTurnsDRAGPUs") {
+				w.Nodes[i].GPUs, w.Nodes[i].GPUMem = 0, 0
+			}
+			if w.Nodes[i].GPUs == 0 && w.Nodes[i].MigStrategy == "" && chance(t, 5, "nodeHasDRAGPUs") {
+				if w.Nodes[i].DRA == nil {
+					w.Nodes[i].DRA = map[string]int{}
+				}
+				w.Nodes[i].DRA[DRAGPUClass] = pickInt(t, "draGpus", 1, 2, 4)
+			}
 		}
 	}
 	if w.Config.Pool != "" {
@@ -487,12 +497,16 @@ func genTemplate(t *rapid.T, pf Profile, w *World) Pod {
 	if chance(t, 1, "initContainer") {
 		p.InitCPU = pickInt(t, "initCpu", 100, 3000)
 	}
-	hasDRA := false
+	hasDRA, hasDRAGPU := false, false
 	for _, n := range w.Nodes {
 		hasDRA = hasDRA || n.DRA[DRAClass] > 0
+		hasDRAGPU = hasDRAGPU || n.DRA[DRAGPUClass] > 0
 	}
 	if hasDRA && chance(t, 5, "draClaim") {
 		p.Claims = []Claim{{Name: "nic", Class: DRAClass, Count: pickInt(t, "draCount", 1, 1, 2)}}
+	}
+	if hasDRAGPU && p.GPUs == 0 && p.Fraction == "" && p.GPUMemory == 0 && len(p.Ext) == 0 && chance(t, 5, "draGpuClaim") {
+		p.Claims = append(p.Claims, Claim{Name: "gpu", Class: DRAGPUClass, Count: pickInt(t, "draGpuCount", 1, 1, 2)})
 	}
 	if chance(t, pf.PConstraints, "constrained") {
 		switch between(t, 0, 5, "constraintKind") {
@@ -751,8 +765,13 @@ func Saturate(t *rapid.T, w *World, pf Profile) int {
 	return added
 }
 
-// DRAClass is the device class of the generated DRA devices (not a GPU class: GPU accounting is untouched).
-const DRAClass = "nic.example.com"
+// DRAClass is the device class of generated non-GPU DRA devices; DRAGPUClass names GPUs that a node publishes
+// through DRA instead of the device plugin (the scheduler takes every class whose name contains "gpu" for GPUs
+// and counts them in node capacity, workload and queue accounting).
+const (
+	DRAClass    = "nic.example.com"
+	DRAGPUClass = "gpu.example.com"
+)
 
 // assignClaimDevices gives pods that already sit on a node the devices their claims hold: distinct devices of
 // the node's slice, first come first served; a placed pod for whose claim the node has no devices left loses
@@ -761,7 +780,9 @@ func assignClaimDevices(w *World) {
 	next := map[string]int{}
 	have := map[string]int{}
 	for i := range w.Nodes {
-		have[w.Nodes[i].Name] = w.Nodes[i].DRA[DRAClass]
+		for class, n := range w.Nodes[i].DRA {
+			have[w.Nodes[i].Name+"/"+class] = n
+		}
 	}
 	for gi := range w.Groups {
 		for pi := range w.Groups[gi].Pods {
@@ -775,17 +796,27 @@ func assignClaimDevices(w *World) {
 			if p.Node == "" || p.State == Pending {
 				continue
 			}
+			taken := map[string]int{}
+			ok := true
 			for ci := range p.Claims {
 				c := &p.Claims[ci]
-				if next[p.Node]+c.Count > have[p.Node] {
-					p.Claims = nil
+				k := p.Node + "/" + c.Class
+				if next[k]+taken[k]+c.Count > have[k] {
+					ok = false
 					break
 				}
 				c.Devices = nil
 				for d := 0; d < c.Count; d++ {
-					c.Devices = append(c.Devices, next[p.Node])
-					next[p.Node]++
+					c.Devices = append(c.Devices, next[k]+taken[k])
+					taken[k]++
 				}
+			}
+			if !ok {
+				p.Claims = nil
+				continue
+			}
+			for k, n := range taken {
+				next[k] += n
 			}
 		}
 	}
